@@ -1,13 +1,174 @@
 (* C07 -- Generated configuration always loads: well-formed, no duplicate identifiers.
-   Only statements, each closed by [exact], each followed by Print Assumptions. *)
+   Only statements, each closed by [exact], each followed by Print Assumptions; then Examples.
+
+   What is proved here, for ALL strings / names:
+     (a) the checker that decides the property on the implementation's real output is sound
+         (C07_checker_sound, C07_lex_sound, C07_parse_sound, C07_lex_events);
+     (b) the identifier schemes that use a separator foreign to their components are injective
+         (C07_sep_split_unique and its instances);
+     (c) the schemes that use - (a legal byte of every component) are NOT injective, and the Ingress
+         path validator does not imply bare-word safety: *_refuted, each with a witness that the
+         harness replays on the real code (known findings F06 F07 F30 F31).
+   The full property (every rendering of every accepted resource set is well formed and free of
+   duplicates) is therefore FALSE of the code; what holds is decided per generated file set by S. *)
 From Coq Require Import List String Ascii Bool.
-From NIC Require Import Names.Idents Names.IdentsProofs.
+From NIC Require Import Lex.Lexer Lex.Parser Lex.Check Lex.LexerProofs Lex.ParserProofs Lex.CheckProofs
+     Lex.IngressPath Names.Idents Names.IdentsProofs.
 Import ListNotations.
 Open Scope string_scope.
 
-(* If a separator byte occurs in none of the components, concatenation with that separator is
-   injective, including in the number of components.  For ALL strings. *)
+(* ---------------------------------------------------------------- (a) the checker *)
+
+(* wf_conf accepts only strings that are, declaratively, a sequence of NGINX tokens forming a
+   forest of terminated directives / balanced blocks, with every word below NGINX's buffer limit. *)
+Theorem C07_checker_sound : forall s, wf_conf s = true -> WellFormed s.
+Proof. exact wf_conf_sound. Qed.
+Print Assumptions C07_checker_sound.
+
+Theorem C07_lex_sound : forall s ts, lex s = Some ts -> Lexes s ts.
+Proof. exact lex_sound. Qed.
+Print Assumptions C07_lex_sound.
+
+Theorem C07_parse_sound : forall ts ds, parse ts = Some ds -> flatten ds = ts.
+Proof. exact parse_sound. Qed.
+Print Assumptions C07_parse_sound.
+
+(* the token view used by the checker and the event view used by the neutrality theorems are the
+   same DFA run: no Err event, legal final state, one event per token *)
+Theorem C07_lex_events : forall s ts,
+    lex s = Some ts -> exists q, run QBetween s = (q, map ev_of_token ts) /\ final_ok q = true.
+Proof. exact lex_events. Qed.
+Print Assumptions C07_lex_events.
+
+Theorem C07_shapes_from_events : forall ts ds,
+    parse ts = Some ds -> shapes_of_events (map ev_of_token ts) = Some (shapes ds).
+Proof. exact shapes_parse. Qed.
+Print Assumptions C07_shapes_from_events.
+
+(* exchanging two strings that are neutral in the DFA state reached by the prefix changes neither
+   the final state nor the events, hence not the block structure / arities *)
+Theorem C07_skeleton_subst : forall pre q e s1 s2 post,
+    run QBetween pre = (q, e) -> neutral q s1 -> neutral q s2 ->
+    fst (run QBetween (pre ++ s1 ++ post)) = fst (run QBetween (pre ++ s2 ++ post)) /\
+    shapes_of_events (snd (run QBetween (pre ++ s1 ++ post))) =
+    shapes_of_events (snd (run QBetween (pre ++ s2 ++ post))).
+Proof. exact skeleton_subst. Qed.
+Print Assumptions C07_skeleton_subst.
+
+(* ---------------------------------------------------------------- (b) injective schemes *)
+
 Theorem C07_sep_split_unique : forall c xs x ys y,
     no_sep c (x :: xs) -> no_sep c (y :: ys) -> join c x xs = join c y ys -> x :: xs = y :: ys.
 Proof. exact sep_split_unique. Qed.
 Print Assumptions C07_sep_split_unique.
+
+Theorem C07_vs_upstream_name_injective : forall ns1 n1 u1 ns2 n2 u2,
+    dns_name ns1 = true -> dns_name n1 = true -> dns_name u1 = true ->
+    dns_name ns2 = true -> dns_name n2 = true -> dns_name u2 = true ->
+    vs_upstream_name ns1 n1 u1 = vs_upstream_name ns2 n2 u2 -> (ns1, n1, u1) = (ns2, n2, u2).
+Proof. exact vs_upstream_name_injective. Qed.
+Print Assumptions C07_vs_upstream_name_injective.
+
+Theorem C07_vsr_upstream_name_injective : forall a1 b1 c1 d1 u1 a2 b2 c2 d2 u2,
+    Forall (fun s => dns_name s = true) [a1; b1; c1; d1; u1; a2; b2; c2; d2; u2] ->
+    vsr_upstream_name a1 b1 c1 d1 u1 = vsr_upstream_name a2 b2 c2 d2 u2 ->
+    (a1, b1, c1, d1, u1) = (a2, b2, c2, d2, u2).
+Proof. exact vsr_upstream_name_injective. Qed.
+Print Assumptions C07_vsr_upstream_name_injective.
+
+Theorem C07_vs_vsr_upstream_names_disjoint : forall ns n u a b c d v,
+    Forall (fun s => dns_name s = true) [ns; n; u; a; b; c; d; v] ->
+    vs_upstream_name ns n u <> vsr_upstream_name a b c d v.
+Proof. exact vs_vsr_upstream_names_disjoint. Qed.
+Print Assumptions C07_vs_vsr_upstream_names_disjoint.
+
+Theorem C07_ts_upstream_name_injective : forall ns1 n1 u1 ns2 n2 u2,
+    dns_name ns1 = true -> dns_name n1 = true -> dns_name u1 = true ->
+    dns_name ns2 = true -> dns_name n2 = true -> dns_name u2 = true ->
+    ts_upstream_name ns1 n1 u1 = ts_upstream_name ns2 n2 u2 -> (ns1, n1, u1) = (ns2, n2, u2).
+Proof. exact ts_upstream_name_injective. Qed.
+Print Assumptions C07_ts_upstream_name_injective.
+
+Theorem C07_rl_zone_name_injective : forall a1 b1 c1 d1 a2 b2 c2 d2,
+    Forall (fun s => dns_name s = true) [a1; b1; c1; d1; a2; b2; c2; d2] ->
+    rl_zone_name a1 b1 c1 d1 = rl_zone_name a2 b2 c2 d2 -> (a1, b1, c1, d1) = (a2, b2, c2, d2).
+Proof. exact rl_zone_name_injective. Qed.
+Print Assumptions C07_rl_zone_name_injective.
+
+Theorem C07_match_name_injective : forall u1 u2, match_name u1 = match_name u2 -> u1 = u2.
+Proof. exact match_name_injective. Qed.
+Print Assumptions C07_match_name_injective.
+
+Theorem C07_ingress_rl_zone_name_injective : forall ns1 n1 ns2 n2,
+    has_char "/"%char ns1 = false -> has_char "/"%char ns2 = false ->
+    has_char "/"%char n1 = false -> has_char "/"%char n2 = false ->
+    ingress_rl_zone_name ns1 n1 = ingress_rl_zone_name ns2 n2 -> (ns1, n1) = (ns2, n2).
+Proof. exact ingress_rl_zone_name_injective. Qed.
+Print Assumptions C07_ingress_rl_zone_name_injective.
+
+(* ---------------------------------------------------------------- (c) refutations *)
+
+(* FULL STATEMENT (false): forall DNS components, ingress_upstream_name is injective. *)
+Theorem C07_ingress_upstream_name_refuted :
+  exists ns ing1 host1 ing2 host2 svc port,
+    Forall (fun s => dns_name s = true) [ns; ing1; host1; ing2; host2; svc; port] /\
+    (ing1, host1) <> (ing2, host2) /\
+    ingress_upstream_name ns ing1 host1 svc port = ingress_upstream_name ns ing2 host2 svc port.
+Proof. exact ingress_upstream_name_refuted. Qed.
+Print Assumptions C07_ingress_upstream_name_refuted.
+
+(* FULL STATEMENT (false): the keyval zone (and every VariableNamer name) determines the VirtualServer. *)
+Theorem C07_keyval_zone_name_refuted :
+  exists ns1 n1 ns2 n2 i,
+    Forall (fun s => dns_name s = true) [ns1; n1; ns2; n2] /\ (ns1, n1) <> (ns2, n2) /\
+    keyval_zone_name ns1 n1 i = keyval_zone_name ns2 n2 i.
+Proof. exact keyval_zone_name_refuted. Qed.
+Print Assumptions C07_keyval_zone_name_refuted.
+
+(* FULL STATEMENT (false): the JWT login location of a minion determines the minion. *)
+Theorem C07_login_location_name_refuted :
+  exists ns1 n1 ns2 n2,
+    Forall (fun s => dns_name s = true) [ns1; n1; ns2; n2] /\ (ns1, n1) <> (ns2, n2) /\
+    login_location_name ns1 n1 = login_location_name ns2 n2.
+Proof. exact login_location_name_refuted. Qed.
+Print Assumptions C07_login_location_name_refuted.
+
+(* FULL STATEMENT (false): every path accepted by the Ingress path validator is one bare word. *)
+Theorem C07_ingress_path_bare_safe_refuted :
+  exists p, ingress_path_ok p = true /\ one_bare_word p = false.
+Proof. exact ingress_path_bare_safe_refuted. Qed.
+Print Assumptions C07_ingress_path_bare_safe_refuted.
+
+(* What does hold at that site: an accepted path without a left brace is exactly one bare word. *)
+Theorem C07_ingress_path_bare_safe_partial :
+  forall p, ingress_path_ok p = true -> has_byte ch_open p = false -> one_bare_word p = true.
+Proof. exact ingress_path_bare_safe_partial. Qed.
+Print Assumptions C07_ingress_path_bare_safe_partial.
+
+(* ---------------------------------------------------------------- non-vacuity *)
+
+Definition sample_conf : string :=
+  "upstream vs_a_web_u { zone vs_a_web_u 256k; server 10.0.0.1:80 max_fails=1; }
+   # a comment with ; { and }
+   server { listen 80; server_name x.example.com;
+     location /a { proxy_pass http://vs_a_web_u; set $x ""a b;}""; proxy_set_header X ${y}z; }
+     location @hc { return 200 'ok'; } }".
+
+Example sample_is_wf : wf_conf sample_conf = true. Proof. vm_compute. reflexivity. Qed.
+Example sample_arity_ok : arity_errors_conf "conf.d/a.conf" sample_conf = []. Proof. vm_compute. reflexivity. Qed.
+Example sample_no_dups : dup_idents [("conf.d/a.conf", sample_conf)] = []. Proof. vm_compute. reflexivity. Qed.
+Example sample_twice_dups :
+  dup_idents [("conf.d/a.conf", sample_conf); ("conf.d/b.conf", sample_conf)] =
+  [("upstream", "http", "vs_a_web_u"); ("zone", "shm", "vs_a_web_u"); ("server_name", "http|80", "x.example.com")].
+Proof. vm_compute. reflexivity. Qed.
+Example brace_path_not_wf : wf_conf "location /a{1,3} { return 200; }" = false. Proof. vm_compute. reflexivity. Qed.
+Example unterminated_not_wf : wf_conf "server { listen 80 }" = false. Proof. vm_compute. reflexivity. Qed.
+Example bad_arity_found :
+  arity_errors_conf "conf.d/a.conf" "server { listen; proxy_pass a b; frobnicate 1; }" =
+  [("arity", "listen"); ("arity", "proxy_pass"); ("unknown", "frobnicate")].
+Proof. vm_compute. reflexivity. Qed.
+Example dns_hyp_met : dns_name "a-b" = true /\ dns_name "c.d" = true /\ dns_name "a_b" = false.
+Proof. vm_compute. repeat split. Qed.
+Example vs_name_example : vs_upstream_name "a-b" "c" "u" = "vs_a-b_c_u" /\
+                          vsr_upstream_name "a" "web" "b" "r" "u" = "vs_a_web_vsr_b_r_u".
+Proof. vm_compute. split; reflexivity. Qed.
